@@ -62,6 +62,9 @@ def generate(rng, tier, index):
         "agg": gen_det_agg(rng, m, dtype), "chunk": gen_chunk(rng, m), "retain": rng.random() < 0.5,
         "tensors_single": rng.random() < 0.5,
     }
+    from ..world import gen_forms
+
+    call["forms"] = gen_forms(rng)
     alt_inputs = None
     if inputs is not None:
         alt_inputs = list(inputs)
